@@ -211,6 +211,13 @@ class Interp:
 
     def eq(self, a, b):
         """Python == on Values -> bool / z3 Bool / Arr."""
+        from . import models_py as _mp
+
+        if isinstance(a, _mp.ArrSet) or isinstance(b, _mp.ArrSet):
+            s_, other = (a, b) if isinstance(a, _mp.ArrSet) else (b, a)
+            if isinstance(other, (frozenset, set)) and len(other) == 0:
+                return z3.Not(s_.nonempty())
+            raise Unsupported("comparison of a symbolic set with a non-empty set")
         if isinstance(a, Maybe) or isinstance(b, Maybe):
             if isinstance(b, Maybe) and not isinstance(a, Maybe):
                 a, b = b, a
@@ -1175,7 +1182,10 @@ class Interp:
         return self.binop(node.op, a, b)
 
     def binop(self, op, a, b):
-        from . import models_np
+        from . import models_np, models_py
+
+        if isinstance(a, models_py.ArrSet) and isinstance(op, ast.Sub) and isinstance(b, (frozenset, set)):
+            return models_py.ArrSet(a.arr, a.excluded | frozenset(b))
 
         if isinstance(a, Arr) or isinstance(b, Arr):
             return models_np.binop(self, op, a, b)
